@@ -1,0 +1,42 @@
+//go:build verif
+
+package coinomics
+
+// Contracts for the deductive checker in /verif (comment-only; compiled only with -tags verif).
+
+/*@
+// the value a MaxSupply query answers in the current state
+specfunc co_max_view_denom() string = ite(co_max_set, co_max.Denom, co_params.MintDenom)
+specfunc co_max_view_amount() int = ite(co_max_set, co_max.Amount, 0)
+
+// ---- C19: coinomics genesis export / import
+func ExportGenesis
+    ensures nonnil: result != nil
+    ensures params: result.Params == co_params
+    ensures prevts: result.PrevBlockTs == co_prev_ts
+    ensures maxsupply: result.MaxSupply.Denom == co_max_view_denom() && result.MaxSupply.Amount == co_max_view_amount()
+
+func InitGenesis
+    params ctx, k, ak, sk, data
+    maypanic
+    modifies co_params, co_prev_ts, co_max_set, co_max
+    ensures params: co_params == data.Params
+    ensures prevts: co_prev_ts == data.PrevBlockTs
+    ensures maxsupply: co_max_set && co_max == data.MaxSupply
+@*/
+
+/*@
+// ---- C19 round trip (ghost compositions in zz_roundtrip_verif.go)
+func verifFreshChain
+    trusted
+    modifies co_params, co_prev_ts, co_max_set, co_max
+func verifReimport
+    maypanic
+    modifies co_params, co_prev_ts, co_max_set, co_max
+    ensures same_state: co_params == old(co_params) && co_prev_ts == old(co_prev_ts)
+            && co_max_view_denom() == old(co_max_view_denom()) && co_max_view_amount() == old(co_max_view_amount())
+func verifReexport
+    maypanic
+    modifies co_params, co_prev_ts, co_max_set, co_max
+    ensures same_document: result != nil && result.Params == g.Params && result.PrevBlockTs == g.PrevBlockTs && result.MaxSupply == g.MaxSupply
+@*/
